@@ -89,6 +89,10 @@ def gen_cases(tier, rng):
         cfg["mw"] = rng.choice([0, 0, 1, 8192])
         if k % 3 == 0:
             cfg["push"] = 1
+        trec = k % 4 == 1
+        if trec:
+            # MPEG-TS recording: see the harness - fewer than 16 messages per input, never audio and video together
+            cfg["trec"] = 1
         h = fanout.Hist(rng, cfg)
         live = []
         epochs = rng.choice([2, 2, 3, 4])
@@ -103,8 +107,10 @@ def gen_cases(tier, rng):
                 h.sdp()
             if rng.random() < 0.4:
                 h.describe()
-            seq = list(fanout.STREAMS[rng.choice(names)])
+            seq = list(fanout.STREAMS[rng.choice(names if not trec else ["video", "audio", "g711", "ehevc"])])
             cut = rng.randrange(0, len(seq) + 1)
+            if trec and rng.random() < 0.5:
+                h.pat()
             for kind in seq[:cut]:
                 a = rng.random()
                 if a < 0.2:
@@ -112,8 +118,10 @@ def gen_cases(tier, rng):
                 elif a < 0.3 and live:
                     h.leave(live.pop(rng.randrange(len(live))))
                 h.pub(kind)
-                if rng.random() < 0.3:
+                if rng.random() < (0.6 if trec else 0.3):
                     h.ts(rng.random() < 0.4)
+                if trec and rng.random() < 0.1:
+                    h.pat()
             if rng.random() < 0.15:
                 h.stop()       # a second stop of the same input must be a no-op
             quick = cfg.get("push") and rng.random() < 0.5 and e + 1 < epochs
@@ -122,6 +130,8 @@ def gen_cases(tier, rng):
                 h.stop_quick()   # the next input follows at once; then a tick
             else:
                 h.stop()
+            if trec and rng.random() < 0.4:
+                h.ts(True)       # TS data handed over while no input is attached: recorded nowhere
             if rng.random() < 0.2:
                 h.pub(rng.choice(["aac", "inter"]))   # a frame handed over after the input was removed: no hook, no recording, nothing cached
             if rng.random() < 0.5:
@@ -185,6 +195,26 @@ def oracle(c, out):
     for ep in range(nep):
         if recs[ep][:1] != ["F"] or recs[ep][1:] != ["t%d" % i for i in per_epoch[ep]]:
             return (False, "recording of input %d is not header + exactly its messages: %s" % (ep, recs[ep][:16]))
+    # MPEG-TS recording: one file per input, holding exactly the PAT/PMT and TS blobs of that input, in order
+    if cfg.get("trec"):
+        trecs = obs.get("trec", [])
+        if nep and len(trecs) != nep:
+            return (False, "%d TS recordings for %d inputs" % (len(trecs), nep))
+        na = nt = 0
+        want = [[] for _ in range(nep)]
+        for pos, e in enumerate(evs):
+            if e[0] in ("A", "T"):
+                lab = ("a%d" % na) if e[0] == "A" else ("s%d" % nt)
+                if e[0] == "A":
+                    na += 1
+                else:
+                    nt += 1
+                for ep, sp in enumerate(spans):
+                    if sp[0] < pos < sp[1]:
+                        want[ep].append(lab)
+        for ep in range(nep):
+            if trecs[ep] != want[ep]:
+                return (False, "TS recording of input %d holds %s, handed to the group during it: %s" % (ep, trecs[ep][:16], want[ep][:16]))
     # stream hook: every non-empty message of the input, exactly one stop
     hk = obs.get("hook")
     if hk is not None and nep:
